@@ -19,6 +19,7 @@ pub const FLOORS: &[&str] = &[
     "stack_on", "stack_off", "push_r7_zero", "pop_r7_ffff", "addr_wrap", "br_cc_none",
     "trap_known", "trap_unknown", "exit_0xee", "exit_1_stack_off", "input_eof", "through_run_loop", "through_run_loop:run_ended",
     "coincide:jsrr_r7", "coincide:push_r7", "coincide:pop_r7", "coincide:ldr_same",
+    "debugger:step_into_compared", "debugger:step_after_goto", "debugger:step_after_word_under_pc_replaced", "debugger:step_after_reset",
 ];
 
 fn opname(w: u16) -> &'static str {
@@ -293,6 +294,15 @@ pub fn run(cfg: &Cfg, col: &mut Collector) {
     }
     let only = cfg.only_case;
     let seed = cfg.seed;
+    // the same instructions executed by `step into` under the debugger (ids from DBG_BASE up)
+    if only.map_or(true, |o| o >= DBG_BASE) {
+        let n = cfg.n(500, 30_000, 3);
+        crate::util::run_cases(n, only.map(|o| o - DBG_BASE), cfg.threads, col, move |i| debugger_case(seed, i));
+        col.extra.push(("debugger_sessions".into(), J::I(n as i64)));
+        if only.is_some() {
+            return;
+        }
+    }
     let results: Vec<Collector> = std::thread::scope(|scope| {
         let handles: Vec<_> = shards
             .iter()
@@ -875,4 +885,210 @@ pub fn variant_names(mask: u32) -> Vec<&'static str> {
         v.push("halt_pc_keep");
     }
     v
+}
+
+
+// ---------------------------------------------------------------------------------------------
+// The same single instructions under the debugger: a session over an image of instruction words,
+// with `goto`, `move` and `reset` between `step into` commands. Every `step into` is one
+// instruction executed on the machine state shown at the prompt before it; the state at the next
+// prompt must be what the reference makes of that state and the word under its PC.
+
+pub const DBG_BASE: u64 = 1 << 40;
+
+fn plain_word(rng: &mut Rng, stack: bool) -> u16 {
+    loop {
+        let w = match rng.below(12) {
+            0 => 0x1000 | (rng.u16() & 0x0FFF),
+            1 => 0x5000 | (rng.u16() & 0x0FFF),
+            2 => 0x9000 | (rng.u16() & 0x0FC0) | 0x3F,
+            3 => 0x2000 | (rng.u16() & 0x0E00) | (rng.below(48) as u16).wrapping_sub(16) & 0x1FF,
+            4 => 0xE000 | (rng.u16() & 0x0FFF),
+            5 => 0x3000 | (rng.u16() & 0x0E00) | (rng.below(48) as u16).wrapping_sub(16) & 0x1FF,
+            6 => 0x6000 | (rng.u16() & 0x0FFF),
+            7 => 0x7000 | (rng.u16() & 0x0FFF),
+            8 => (rng.u16() & 0x0E00) | (rng.below(24) as u16).wrapping_sub(4) & 0x1FF,
+            9 => 0x4800 | (rng.below(24) as u16).wrapping_sub(4) & 0x7FF,
+            10 => 0xC000 | ((rng.below(8) as u16) << 6),
+            _ if stack => 0xD000 | (rng.u16() & 0x0FFF),
+            _ => 0x1000 | (rng.u16() & 0x0FFF),
+        };
+        // ADD/AND register form: bits 4..3 must be zero
+        if matches!(w >> 12, 1 | 5) && w & 0x20 == 0 && w & 0x18 != 0 {
+            continue;
+        }
+        return w;
+    }
+}
+
+fn debugger_case(seed: u64, i: u64) -> CaseOut {
+    use crate::dbgmon::{diff_mem, run_session};
+    let mut out = CaseOut::new();
+    let id = DBG_BASE + i;
+    let mut rng = Rng::for_case(seed, "C02dbg", i);
+    let stack = rng.bool();
+    let orig: u16 = *rng.pick(&[0x3000u16, 0x0200, 0x8000, 0xE000]) + rng.below(0x100) as u16;
+    let n_words = 12 + rng.below(20) as u16;
+    let words: Vec<u16> = (0..n_words).map(|_| plain_word(&mut rng, stack)).collect();
+    let mut text = format!(".orig x{:04X}\n", orig);
+    for w in &words {
+        text.push_str(&format!(".fill x{:04X}\n", w));
+    }
+    text.push_str(".end\n");
+    // script
+    let mut lines: Vec<String> = Vec::new();
+    let inside = |rng: &mut Rng| orig + rng.below(n_words as u64) as u16;
+    for r in 0..8 {
+        if rng.chance(2, 3) {
+            let v = if rng.chance(3, 4) { inside(&mut rng) } else { rng.u16() };
+            lines.push(format!("move r{} x{:04x}", r, if r == 7 && stack { 0x4000 + rng.below(0x4000) as u16 } else { v }));
+        }
+    }
+    let mut steps: Vec<usize> = Vec::new();
+    for _ in 0..6 + rng.below(10) {
+        match rng.below(7) {
+            0 | 1 => lines.push(format!("{} x{:04x}", rng.s(&["goto", "g"]), inside(&mut rng))),
+            2 => lines.push(format!("move x{:04x} x{:04x}", inside(&mut rng), plain_word(&mut rng, stack))),
+            3 if rng.chance(1, 3) => lines.push("reset".to_string()),
+            3 => lines.push(format!("move r{} x{:04x}", rng.below(7), inside(&mut rng))),
+            // the word under the PC itself is replaced just before it is executed
+            4 => {
+                let a = inside(&mut rng);
+                lines.push(format!("goto x{:04x}", a));
+                lines.push(format!("move x{:04x} x{:04x}", a, plain_word(&mut rng, stack)));
+            }
+            _ => {}
+        }
+        steps.push(lines.len());
+        lines.push(rng.s(&["step into", "si", "step into 1", "si 1"]).to_string());
+    }
+    lines.push("exit".to_string());
+    let script = lines.join("\n");
+    let sess = match run_session(&text, stack, &script, &[], 10_000, false) {
+        Ok(s) => s,
+        Err(o) => {
+            out.inconclusive = Some(format!("image of .fill words not assembled ({})", o.class()));
+            return out;
+        }
+    };
+    out.evals = 0;
+    let mut reference = RefVm::load(&[orig], stack).unwrap();
+    for &li in &steps {
+        let (Some(before), Some(after)) = (
+            sess.snaps.iter().find(|s| s.commands_read == li),
+            sess.snaps.iter().find(|s| s.commands_read == li + 1),
+        ) else {
+            out.class("debugger:session_ended_before_step");
+            break;
+        };
+        if before.pc < orig || before.pc >= 0xFE00 {
+            out.class("debugger:pc_outside_user_memory");
+            break;
+        }
+        // the reference machine in the state shown at the prompt
+        reference.mem.copy_from_slice(&sess.init_mem[..]);
+        for &(a, v) in &before.mem_diff {
+            reference.mem[a as usize] = v;
+        }
+        let w = reference.mem[before.pc as usize];
+        if w == 0xF025 || w >> 12 == 8 || w >> 12 == 0xF || (w >> 12 == 0xD && !stack) {
+            // HALT is never executed while the debugger is attached; traps and RTI are not in this family
+            out.class("debugger:not_a_plain_instruction");
+            break;
+        }
+        let before_mem = reference.mem.clone();
+        let mut vmask = 0u32;
+        let mut matched = false;
+        let mut first: Option<String> = None;
+        let mut leaves = false;
+        loop {
+            reference.mem.copy_from_slice(&before_mem[..]);
+            reference.reg = before.reg;
+            reference.cc = before.cc;
+            reference.pc = before.pc.wrapping_add(1);
+            reference.variant = vmask;
+            reference.touched = 0;
+            reference.out.clear();
+            let step = reference.exec(w);
+            if !matches!(step, Step::Next) {
+                out.class("debugger:not_a_plain_instruction");
+                leaves = true;
+                break;
+            }
+            if reference.pc < orig || reference.pc >= 0xFE00 {
+                leaves = true;
+            }
+            let d = if after.reg != reference.reg {
+                Some(format!("registers {:04X?}, reference {:04X?}", after.reg, reference.reg))
+            } else if after.pc != reference.pc {
+                Some(format!("PC x{:04X}, reference x{:04X}", after.pc, reference.pc))
+            } else if after.cc != reference.cc {
+                Some(format!("CC {:03b}, reference {:03b}", after.cc, reference.cc))
+            } else if after.mem_diff != diff_mem(&reference.mem, &sess.init_mem) {
+                Some(format!("memory changes {:04X?}, reference {:04X?}", &after.mem_diff[..after.mem_diff.len().min(6)], {
+                    let d = diff_mem(&reference.mem, &sess.init_mem);
+                    d[..d.len().min(6)].to_vec()
+                }))
+            } else {
+                None
+            };
+            match d {
+                None => {
+                    matched = true;
+                    break;
+                }
+                Some(d) => {
+                    if first.is_none() {
+                        first = Some(d);
+                    }
+                }
+            }
+            match next_subset(vmask, reference.touched) {
+                Some(n) => vmask = n,
+                None => break,
+            }
+        }
+        if leaves && !matched {
+            // the run may legitimately have ended or been stopped by the debugger here
+            out.class("debugger:left_user_memory");
+            break;
+        }
+        out.evals += 1;
+        out.class("debugger:step_into_compared");
+        out.class(format!("debugger:{}", opclass(w)));
+        let prev = if li > 0 { lines[li - 1].as_str() } else { "" };
+        if li > 0 && prev.starts_with('g') {
+            out.class("debugger:step_after_goto");
+        } else if li > 0 && prev.starts_with("move x") && prev[5..].starts_with(&format!("x{:04x} ", before.pc)) {
+            out.class("debugger:step_after_word_under_pc_replaced");
+        } else if li > 0 && prev == "reset" {
+            out.class("debugger:step_after_reset");
+        }
+        if !matched {
+            out.violate(
+                format!("C02/{}/under-debugger", opname(w)),
+                id,
+                format!(
+                    "`{}` at PC x{:04X} (word x{:04X}, after `{}`): {}",
+                    lines[li],
+                    before.pc,
+                    w,
+                    if li > 0 { lines[li - 1].as_str() } else { "" },
+                    first.unwrap_or_default()
+                ),
+                J::obj(vec![
+                    ("source", J::s(&text)),
+                    ("script", J::A(lines.iter().map(J::s).collect())),
+                    ("stack_feature", J::B(stack)),
+                    ("command_index", J::I(li as i64)),
+                ]),
+            );
+            break;
+        }
+        if leaves {
+            break;
+        }
+    }
+    out.nontrivial = Some(crate::util::hash_bytes(format!("{}|{}", text, script).as_bytes()));
+    out
 }
